@@ -16,6 +16,7 @@ CONSTANTS MaxObj, MaxThr, MaxStack, MaxSteps,
           Acts,      \* enabled action names (route-focused configurations)
           TwoVMs,    \* a second, unrelated VM may be created
           Emit,      \* print walks for the replay
+          Traps,     \* names of the scenario traps whose walks are emitted
           Mutant     \* "none", or the name of a deliberately wrong variant (the invariants must reject it)
 
 Thr == 1..MaxThr
@@ -336,4 +337,29 @@ TypeOK ==
 
 ---------------------------------------------------------------------------
 EmitWalk == (Emit /\ Len(hist) = MaxSteps) => PrintT(<<"WALK", ToJson(hist)>>)
+
+(* Scenario traps: configurations whose handling by the collector / the cloner is delicate.  TLC's breadth-first  *)
+(* search reaches each distinct trapped state by a shortest walk, which is emitted for the replay; the harness   *)
+(* then lets every thread collect twice and re-checks the graph (collections placed after the configuration).    *)
+NotRooted(a) == \A t \in Threads : a \notin Roots(t)
+\* an object of a child / grandchild heap is the only path to an object of another (ancestor) heap
+DeepOnlyPath ==
+  \E o, a \in 1..nobj : /\ Alive(o) /\ Alive(a) /\ a \in Fields(o) /\ obj[a].heap # obj[o].heap
+                         /\ obj[o].heap \in Thr /\ Gen(obj[o].heap) >= 2 /\ NotRooted(a) /\ o \in Reachable
+\* a cell is kept alive only by a thread which does not own it and its content is reachable through the cell only
+ForeignCell ==
+  \E c \in 1..nobj : /\ Alive(c) /\ obj[c].kind = "cell" /\ obj[c].f[1] > 0 /\ NotRooted(obj[c].f[1])
+                      /\ obj[c].heap \in Thr /\ c \notin Roots(obj[c].heap) /\ c \in Reachable
+\* values wait in a channel whose ends are held only by a thread which did not create it
+ForeignQueue ==
+  \E c \in 1..nobj : /\ Alive(c) /\ obj[c].kind = "chan" /\ \E i \in DOMAIN obj[c].f : obj[c].f[i] > 0 /\ NotRooted(obj[c].f[i])
+                      /\ obj[c].heap \in Thr /\ c \notin Roots(obj[c].heap) /\ c \in Reachable
+\* a value lives on in another VM after its source was dropped
+SurvivesDrop == gone # {} /\ \E o \in 1..nobj : Alive(o) /\ o \in Reachable /\ obj[o].kind = "data" /\ Fields(o) # {}
+DeepOnlyPath3 ==
+  \E o, a \in 1..nobj : /\ Alive(o) /\ Alive(a) /\ a \in Fields(o) /\ obj[a].heap # obj[o].heap
+                         /\ obj[o].heap \in Thr /\ Gen(obj[o].heap) >= 3 /\ NotRooted(a) /\ o \in Reachable
+Trapped == \/ ("deep" \in Traps /\ DeepOnlyPath) \/ ("deep3" \in Traps /\ DeepOnlyPath3)
+           \/ ("cell" \in Traps /\ ForeignCell) \/ ("chan" \in Traps /\ ForeignQueue) \/ ("vm" \in Traps /\ SurvivesDrop)
+EmitTraps == (Emit /\ hist # <<>> /\ Trapped) => PrintT(<<"WALK", ToJson(hist)>>)
 =============================================================================
